@@ -273,12 +273,13 @@ def sched_witness(tasks):
     return W(key, code, 'compile', None, note)
 
 
-@family('V-SCHED', props=['C12', 'C07', 'C08'], quick_props=['C12'], floor={'quick': 80, 'thorough': 1500},
+@family('V-SCHED', props=['C12', 'C07', 'C08'], quick_props=['C12'], floor={'quick': 80, 'thorough': 80},
         doc='for every schedule of the family the compile-time Stages type equals the reference greedy partition by declared access (both directions: conflicting tasks are never grouped, independent adjacent tasks are grouped)')
-def v_sched(tier, seed):
+def v_sched(tier, seed, pid=None):
     K5 = [None] + KINDS
     alpha = []
-    if tier == 'quick':
+    # the full product is the primary decider of C12 only; C07/C08 use the reduced family in both tiers
+    if tier == 'quick' or pid not in (None, 'C12'):
         for k in K5:
             alpha.append(Task({'A': k} if k else {}, {}, None, False))
         for k in KINDS:
